@@ -1,7 +1,333 @@
-import PsutilModel.Model.C12Gen
-import PsutilModel.Spec.C12
-namespace Psutil.C12
+/-
+  Props/C12.lean — property theorems for C12 (cmdline / environ / exe / cwd / extended name()).
+  Only statements the property makes; helper lemmas live in Proofs/C12*.lean.
 
-theorem placeholder : cfg.nameMinLen = 15 := by decide
+  `cfg` is built from Generated/C12.lean, which the translator rewrites from /repo's source on
+  every run. `cfg_good` is the proof obligation that breaks when a separator literal, the
+  ` (deleted)` suffix or its cut length, the 15 of `name()`, the kind of string `name()` tests
+  (bytes vs code points) or the newline mode of `open_text` changes. Every theorem below is
+  then about the code's own configuration.
+-/
+import PsutilModel.Proofs.C12Front
+import PsutilModel.Model.C12Gen
+namespace Psutil.C12
+open Spec
+
+/-- the configuration extracted from the source is the documented one -/
+theorem cfg_good : cfg = good := by decide
+
+/-! ## cmdline() -/
+
+/-- **C12_cmdline_spec.** For every content of `/proc/<pid>/cmdline` and either kind of
+    process, `cmdline()` is the documented reading: empty → `[]` (live) / ZombieProcess
+    (zombie); NUL-terminated → the NUL-separated arguments with empty ones preserved, unless
+    it is a single piece containing a space, which is split on spaces; not NUL-terminated →
+    split on spaces after ignoring one trailing space. -/
+theorem C12_cmdline_spec (w : World) (d : Bytes) (hd : w.dirExists = true)
+    (hc : w.cmdline = .data d) : cmdline cfg w = Spec.cmdlineOf w.zombie d := by
+  rw [cfg_good]; exact cmdline_data w d hd hc
+
+/-- **C12_cmdline_zombie.** The empty cmdline of a zombie is reported as ZombieProcess, the
+    empty cmdline of a live process as `[]`. -/
+theorem C12_cmdline_zombie (w : World) (hd : w.dirExists = true) (hc : w.cmdline = .data []) :
+    cmdline cfg w = if w.zombie then .error .zombieProcess else .ok [] := by
+  rw [C12_cmdline_spec w [] hd hc]; rfl
+
+/-- **C12_cmdline_roundtrip.** Whatever argument vector the kernel lays out (any number of
+    arguments ≥ 1, empty arguments anywhere including last, spaces, any bytes but NUL),
+    `cmdline()` returns exactly that vector — provided it has at least two arguments or its
+    only argument contains no space. -/
+theorem C12_cmdline_roundtrip (w : World) (argv : List Bytes) (hd : w.dirExists = true)
+    (hc : w.cmdline = .data (renderArgv argv)) (hne : argv ≠ []) (hnul : ∀ a ∈ argv, 0 ∉ a)
+    (hsp : 2 ≤ argv.length ∨ ∀ a ∈ argv, 32 ∉ a) : cmdline cfg w = .ok argv := by
+  rw [C12_cmdline_spec w _ hd hc]
+  have hne' : renderArgv argv ≠ [] := by
+    cases argv with
+    | nil => exact absurd rfl hne
+    | cons a as => simp [renderArgv]
+  simp [Spec.cmdlineOf, hne', args_renderArgv argv hne hnul hsp]
+
+/-- the round-trip without the hypothesis on a single space-containing argument -/
+def C12_cmdline_roundtrip_Full : Prop :=
+  ∀ (w : World) (argv : List Bytes), w.dirExists = true → w.cmdline = .data (renderArgv argv) →
+    argv ≠ [] → (∀ a ∈ argv, 0 ∉ a) → cmdline cfg w = .ok argv
+
+/-- … is false, and cannot be repaired: the bytes of `["a b"]` are those of the rewritten
+    title `a b` + NUL, which the property wants split (stated limit, not a defect). -/
+theorem C12_cmdline_single_space_arg_ambiguous : ¬ C12_cmdline_roundtrip_Full := by
+  intro h
+  have := h { dirExists := true, zombie := false, comm := [], cmdline := .data [97, 32, 98, 0],
+              environ := .data [], exe := .err .enoent, cwd := .err .enoent, fs := fun _ => .absent }
+    [[97, 32, 98]] rfl rfl (by decide) (by decide)
+  revert this
+  decide
+
+/-- **C12_cmdline_title_rule.** A title rewritten without NUL bytes is split on spaces, one
+    trailing space ignored; if it is NUL-terminated, the same after dropping that NUL. -/
+theorem C12_cmdline_title_rule (w : World) (t : Bytes) (hd : w.dirExists = true) (hne : t ≠ [])
+    (hnul : 0 ∉ t) :
+    (w.cmdline = .data t →
+      cmdline cfg w = .ok (fields 32 (if t.getLast? = some 32 then t.dropLast else t)))
+    ∧ (w.cmdline = .data (t ++ [0]) → 32 ∈ t → cmdline cfg w = .ok (fields 32 t)) := by
+  constructor
+  · intro hc
+    rw [C12_cmdline_spec w t hd hc]
+    have h0 : t.getLast? ≠ some 0 := fun h => hnul (List.mem_of_getLast? h)
+    simp [Spec.cmdlineOf, hne, args, h0]
+  · intro hc h32
+    rw [C12_cmdline_spec w _ hd hc]
+    simp [Spec.cmdlineOf, args, hnul, h32]
+
+/-- the documented fields are characterised uniquely: a non-empty list of pieces without the
+    separator whose join is the string (so `fields` in the statements above means what it says) -/
+theorem C12_fields_characterised (sep : Nat) (s : Bytes) (fs : List Bytes) :
+    IsFields sep s fs ↔ fs = fields sep s :=
+  ⟨isFields_unique sep s fs, fun h => h ▸ fields_isFields sep s⟩
+
+/-! ## environ() -/
+
+/-- **C12_environ_spec.** For every content of `/proc/<pid>/environ`, `environ()` is the
+    dictionary of the `NAME=value` entries up to the first empty entry (an unterminated tail
+    is garbage; entries without `=` or with an empty NAME are not assignments), built in
+    order with later duplicates overwriting earlier ones. -/
+theorem C12_environ_spec (w : World) (d : Bytes) (hd : w.dirExists = true)
+    (he : w.environ = .data d) : environ cfg w = .ok (environOf d) := by
+  rw [cfg_good]
+  exact environ_sound w _ (by simp [Spec.environ, hd, he])
+
+/-- **C12_environ_last_wins.** Looking a name up in the result gives the value of the LAST
+    assignment to it, and every name occurs once. -/
+theorem C12_environ_last_wins (d : Bytes) (k : Bytes) :
+    (environOf d).lookup k = lastValue (assignments d) k
+    ∧ ((environOf d).map (·.1)).Nodup := by
+  constructor
+  · have := lookup_foldl_put (assignments d) [] k
+    simpa [environOf] using this
+  · exact foldl_put_keys_nodup (assignments d) [] (by simp)
+
+/-- **C12_environ_roundtrip.** Whatever environment the kernel lays out (non-empty names
+    without `=`/NUL, values without NUL but possibly with `=`, no duplicate names),
+    `environ()` returns exactly it — whatever garbage follows an empty entry. -/
+theorem C12_environ_roundtrip (w : World) (env : List (Bytes × Bytes)) (garbage : Bytes)
+    (hd : w.dirExists = true) (hok : EnvOk env) (hnd : (env.map (·.1)).Nodup)
+    (he : w.environ = .data (renderEnv env) ∨ w.environ = .data (renderEnv env ++ 0 :: garbage)) :
+    environ cfg w = .ok env := by
+  have key := assignments_renderEnv_tail env hok
+  rcases he with he | he
+  · rw [C12_environ_spec w _ hd he]
+    have := key [] (Or.inl rfl)
+    rw [List.append_nil] at this
+    rw [environOf, this, foldl_put_nodup env [] (by simpa using hnd)]
+    rfl
+  · rw [C12_environ_spec w _ hd he]
+    rw [environOf, key (0 :: garbage) (Or.inr ⟨garbage, rfl⟩),
+      foldl_put_nodup env [] (by simpa using hnd)]
+    rfl
+
+/-! ## exe() / cwd() links -/
+
+/-- **C12_link_cleanup.** For every link target: NUL garbage is cut; a ` (deleted)` suffix is
+    removed iff nothing with the suffixed name exists; a file really named `… (deleted)`
+    keeps its name. (`tail` = nothing, or NUL followed by anything.) -/
+theorem C12_link_cleanup (fs : Bytes → FsEnt) (p tail : Bytes) (hp : 0 ∉ p)
+    (ht : tail = [] ∨ tail.head? = some 0) :
+    (fs (p ++ deleted) = .absent → readlinkClean cfg fs (p ++ deleted ++ tail) = .ok p)
+    ∧ ((fs (p ++ deleted) = .dir ∨ ∃ x, fs (p ++ deleted) = .file x) →
+        readlinkClean cfg fs (p ++ deleted ++ tail) = .ok (p ++ deleted))
+    ∧ ((¬ ∃ q, p = q ++ deleted) → readlinkClean cfg fs (p ++ tail) = .ok p) := by
+  rw [cfg_good]
+  have hpd : 0 ∉ p ++ deleted := by
+    simp only [List.mem_append, not_or]; exact ⟨hp, by decide⟩
+  refine ⟨?_, ?_, ?_⟩
+  · intro habs
+    have htw := takeWhile_ne_of_tail 0 (p ++ deleted) tail hpd ht
+    rw [readlinkClean_eq]
+    simp only [linkClean, htw, stripDeleted_append, habs]
+  · intro hex
+    have htw := takeWhile_ne_of_tail 0 (p ++ deleted) tail hpd ht
+    rw [readlinkClean_eq]
+    rcases hex with h | ⟨x, h⟩ <;> simp only [linkClean, htw, stripDeleted_append, h]
+  · intro hno
+    have htw := takeWhile_ne_of_tail 0 p tail hp ht
+    rw [readlinkClean_eq]
+    simp only [linkClean, htw, stripDeleted_none p hno]
+
+/-- **C12_link_spec.** `cwd()` (and the native `exe()`) agree with the specification in every
+    world where it speaks: clean-up of a readable target; `''` when the kernel withholds the
+    link (ENOENT/ESRCH) from a live process, ZombieProcess for a zombie; AccessDenied on
+    EACCES; NoSuchProcess once `/proc/<pid>` is gone. -/
+theorem C12_link_spec (w : World) (r : Res Bytes) :
+    (Spec.cwd w = some r → cwd cfg w = r) ∧ (Spec.link w w.exe = some r → procExe cfg w = r) := by
+  rw [cfg_good]
+  exact ⟨cwd_sound w r, procExe_sound w r⟩
+
+/-- **C12_link_withheld.** ENOENT or ESRCH on the link while `/proc/<pid>` exists: `''` for a
+    live process, ZombieProcess for a zombie. -/
+theorem C12_link_withheld (w : World) (e : Err) (hd : w.dirExists = true) (he : e ≠ .eacces)
+    (hl : w.cwd = .err e) :
+    cwd cfg w = if w.zombie then .error .zombieProcess else .ok [] := by
+  have : Spec.cwd w = some (if w.zombie then .error .zombieProcess else .ok []) := by
+    cases e <;> simp_all [Spec.cwd, Spec.link]
+  exact (C12_link_spec w _).1 this
+
+/-! ## exe() front end -/
+
+/-- **C12_exe_fallback.** One uncached `exe()`: a non-empty native answer is returned and
+    remembered; `''` (withheld) → `cmdline()[0]` if that is an absolute path to an executable
+    regular file, else `''`, remembered either way; AccessDenied → the same guess, else
+    AccessDenied, and nothing is remembered. -/
+theorem C12_exe_fallback (w : World) (r : Res Bytes) (rem : Bool)
+    (h : Spec.exeOnce w = some (r, rem)) :
+    exe cfg w ⟨none⟩ = (⟨remembered r rem⟩, r) := by
+  rw [cfg_good]; exact exeOnce_sound w r rem h
+
+/-- **C12_exe_refines.** After `exe()` calls in ANY sequence of worlds on one object, the next
+    `exe()` returns what the history-defined specification promises: the first remembered
+    answer, whatever the kernel says now; else the uncached answer. -/
+theorem C12_exe_refines (ws : List World) (w : World) (r : Res Bytes)
+    (h : Spec.exeAfter ws w = some r) : (exe cfg w (runExe cfg St.init ws)).2 = r := by
+  rw [cfg_good]; exact exeAfter_sound ws w r h
+
+/-- **C12_exe_cached.** Once an answer is remembered it is returned forever (also `''`). -/
+theorem C12_exe_cached (v : Bytes) (ws : List World) (w : World) :
+    exe cfg w (runExe cfg ⟨some v⟩ ws) = (⟨some v⟩, .ok v) := by
+  rw [runExe_cached]; rfl
+
+/-! ## name() -/
+
+/-- **C12_name_rule.** `name()` is the kernel's name, except that a name of at least 15
+    BYTES is replaced by the basename of `cmdline()[0]` exactly when that basename starts
+    with it (as bytes); a zombie's or unreadable cmdline leaves the kernel's name. -/
+theorem C12_name_rule (w : World) (r : Res Bytes) (h : Spec.name w = some r) : name cfg w = r := by
+  rw [cfg_good]; exact name_sound w r h
+
+/-- the rule in closed form for a readable, non-empty cmdline -/
+theorem C12_name_rule_explicit (w : World) (d : Bytes) (a0 : Bytes) (rest : List Bytes)
+    (hd : w.dirExists = true) (hc : w.cmdline = .data d)
+    (ha : Spec.cmdlineOf w.zombie d = .ok (a0 :: rest)) :
+    name cfg w = .ok (if 15 ≤ w.comm.length ∧ w.comm.isPrefixOf (base a0) then base a0 else w.comm) := by
+  apply C12_name_rule
+  unfold Spec.name
+  by_cases hl : w.comm.length < commMax
+  · have : ¬ 15 ≤ w.comm.length := by unfold commMax at hl; omega
+    simp [hd, hl, this]
+  · have h15 : 15 ≤ w.comm.length := by unfold commMax at hl; omega
+    have hl' : ¬ w.comm.length < 15 := by omega
+    simp [hd, hc, ha, nameRule, commMax, hl', h15]
+
+/-- `base` is "what follows the last slash" -/
+theorem C12_base_characterised (dir b : Bytes) (hb : 47 ∉ b) :
+    base (dir ++ 47 :: b) = b ∧ base b = b := by
+  rw [← basename_eq_base, ← basename_eq_base]
+  constructor
+  · simp [basename, rfindIdx?_last 47 dir b hb]
+  · simp [basename, rfindIdx?_none 47 b hb]
+
+/-! ## every call, every history -/
+
+/-- **C12_call_refines.** After ANY history of calls (any worlds, any order) on one Process
+    object, each of the five calls returns what the specification promises, wherever the
+    specification speaks. -/
+theorem C12_call_refines (hist : List (World × Call)) (w : World) (c : Call) (o : Out)
+    (h : Spec.call (exeWorldsOf hist) w c = some o) :
+    (step cfg (runAll cfg St.init hist).1 w c).2 = o := by
+  rw [runAll_state]
+  cases c with
+  | cmdline =>
+    simp only [Spec.call, Option.map_eq_some_iff] at h
+    obtain ⟨r, hr, ho⟩ := h
+    rw [← ho, cfg_good]; simp [step, cmdline_sound w r hr]
+  | environ =>
+    simp only [Spec.call, Option.map_eq_some_iff] at h
+    obtain ⟨r, hr, ho⟩ := h
+    rw [← ho, cfg_good]; simp [step, environ_sound w r hr]
+  | exe =>
+    simp only [Spec.call, Option.map_eq_some_iff] at h
+    obtain ⟨r, hr, ho⟩ := h
+    rw [← ho]
+    have := C12_exe_refines (exeWorldsOf hist) w r hr
+    simp only [step]
+    rw [← this]
+  | cwd =>
+    simp only [Spec.call, Option.map_eq_some_iff] at h
+    obtain ⟨r, hr, ho⟩ := h
+    rw [← ho, cfg_good]; simp [step, cwd_sound w r hr]
+  | name =>
+    simp only [Spec.call, Option.map_eq_some_iff] at h
+    obtain ⟨r, hr, ho⟩ := h
+    rw [← ho, cfg_good]; simp [step, name_sound w r hr]
+
+/-! ## Non-vacuity, and the two defects re-found (why `cfg_good` matters) -/
+
+def wEx : World :=
+  { dirExists := true, zombie := false, comm := [], cmdline := .data [], environ := .data [],
+    exe := .err .enoent, cwd := .err .enoent, fs := fun _ => .absent }
+
+def wArgv : World := { wEx with cmdline := .data (renderArgv [[97], [], [98, 32, 99], []]) }
+
+/-- `a`, ``, `b c`, `` comes back with its empty arguments -/
+example : cmdline cfg wArgv = .ok [[97], [], [98, 32, 99], []] := by decide
+
+def wEnv : World :=
+  { wEx with
+    environ := .data ([65, 61, 49, 0, 66, 0, 61, 67, 61, 50, 0, 65, 61, 51, 0, 0, 71, 61, 49, 0]) }
+
+/-- `A=1`, `B`, `=C=2`, `A=3`, empty, garbage → {A: 3} -/
+example : environ cfg wEnv = .ok [([65], [51])] := by decide
+
+def wKeyring : World :=
+  { wEx with
+    comm := [103,110,111,109,101,45,107,101,121,114,105,110,103,45,100]
+    cmdline := .data ([47,98,47,103,110,111,109,101,45,107,101,121,114,105,110,103,45,100,97,101,109,111,110,0]) }
+
+/-- `gnome-keyring-d` → `gnome-keyring-daemon` -/
+example : name cfg wKeyring
+    = .ok [103,110,111,109,101,45,107,101,121,114,105,110,103,45,100,97,101,109,111,110] := by decide
+
+def wGuess : World :=
+  { wEx with
+    cmdline := .data ([47, 97, 0])
+    fs := fun p => if p = [47, 97] then .file true else .absent }
+
+def wLater : World := { wEx with exe := .target ([47, 113]) }
+
+/-- exe withheld, `cmdline()[0]` = `/a` executable → `/a`, remembered although the link says `/q` later -/
+example : (exe cfg wLater (runExe cfg St.init [wGuess])).2 = .ok [47, 97]
+    ∧ Spec.exeAfter [wGuess] wLater = some (.ok [47, 97]) := by
+  decide
+
+/-- the process whose executable is `ééééééééé` (18 bytes): the kernel keeps 15 bytes, i.e.
+    7 `é` and half a character -/
+def wMultiByte : World :=
+  { wEx with
+    comm := [195,169,195,169,195,169,195,169,195,169,195,169,195,169,195]
+    cmdline := .data ([47,195,169,195,169,195,169,195,169,195,169,195,169,195,169,195,169,195,169,0]) }
+
+/-- **L20 re-found.** With the length and prefix tests of `name()` made on decoded strings
+    (the code as found), the rule is false: `name()` returns the truncated 15 bytes although
+    the basename of `cmdline()[0]` starts with them; the specification (and the repaired
+    code, by `C12_name_rule`) gives the full name. -/
+theorem C12_name_rule_needs_bytes :
+    name { good with nameTestOnBytes := false } wMultiByte = .ok wMultiByte.comm
+    ∧ Spec.name wMultiByte = some (.ok [195,169,195,169,195,169,195,169,195,169,195,169,195,169,195,169,195,169])
+    ∧ name good wMultiByte = .ok [195,169,195,169,195,169,195,169,195,169,195,169,195,169,195,169,195,169] := by
+  decide
+
+def wCR : World :=
+  { wEx with
+    cmdline := .data ([112, 0, 97, 13, 98, 0])
+    environ := .data ([88, 61, 49, 13, 10, 50, 0]) }
+
+/-- **Carriage returns re-found.** With `open_text` in universal-newlines mode (the code as
+    found), the argument `a\rb` comes back as `a\nb` and the value `1\r\n2` as `1\n2`; the
+    specification (and the repaired code) returns the bytes the kernel exposes. -/
+theorem C12_text_needs_raw_newlines :
+    let w := wCR
+    cmdline { good with textRaw := false } w = .ok [[112], [97, 10, 98]]
+    ∧ Spec.cmdline w = some (.ok [[112], [97, 13, 98]])
+    ∧ cmdline good w = .ok [[112], [97, 13, 98]]
+    ∧ environ { good with textRaw := false } w = .ok [([88], [49, 10, 50])]
+    ∧ Spec.environ w = some (.ok [([88], [49, 13, 10, 50])]) := by
+  decide
 
 end Psutil.C12
